@@ -33,7 +33,7 @@ LEVEL_TEXT = ("Lean 4 proof for all inputs (no size bound) of: encode/decode bij
               "guarded fuse mapped over the windows, error cases included; CodonTable(dict) array lookup = dict lookup and complete "
               "translation = codon-by-codon dict lookup; ORF exactness of translate(complete=False) incl. met_start and order; "
               "complement involution + IUPAC pairing, protein 1<->3 letter dicts, PRINTABLES and all shipped codon tables by decide "
-              "on tables regenerated from the source. PARTIAL: KmerAlphabet.fuse's own range test is defective in the .pyx (three "
+              "on tables regenerated from the source; invalid nucleotide codes are refused by translation (repaired code), + for alphabets extending each other, one-symbol broadcast in slice assignment, symbols setter, as_type, derived codon tables are independent values. PARTIAL: KmerAlphabet.fuse's own range test is defective in the .pyx (three "
               "known findings; its rejection theorem is _partial with a _defect witness and an _after_fix statement); slices are "
               "numpy views in the real code (aliasing) - the value-semantic model asserts nothing about mutation after slicing.")
 LEVEL_NOTE = ("model tied to the code by a differential harness on seeded op scripts and by regenerated tables; numpy "
@@ -1366,6 +1366,75 @@ def _case_codon_api(rng):
     return {"kind": "codon-api", "ops": ops}
 
 
+def _case_translate_invalid(rng):
+    """a nucleotide sequence holding a code outside 0..3 (the code setter accepts every value of the dtype) is never
+    translated into something: AlphabetError demanded; valid registers translate like their strings"""
+    n = rng.choice([3, 6, 6, 9, 10, 2])
+    base = [rng.randrange(4) for _ in range(n)]
+    ops = ["s_nuc " + _ints(ord("ACGT"[c]) for c in base), rng.choice(["c_default", f"c_load {rng.choice(TABLE_IDS)}"]),
+           f"c_trreg 0 {rng.choice([0, 1])} {rng.choice([0, 1])}"]
+    for _ in range(rng.randint(2, 4)):
+        codes = list(base)
+        if rng.random() < 0.8:
+            codes[rng.randrange(n)] = rng.choice([4, 4, 5, 14, 15, 16, 63, 64, 200, 255])
+        else:
+            codes = [rng.randrange(4) for _ in range(n)]
+        ops += [f"s_setcode 0 u8 {_ints(codes)}", f"c_trreg 0 1 0", f"c_trreg 0 0 {rng.choice([0, 1])}", "s_valid 0"]
+    ops += ["s_nuc 65,67,71,78", "c_trreg 1 1 0", "c_trreg 1 0 0"]      # ambiguous alphabet: refused
+    return {"kind": "translate-invalid", "ops": ops}
+
+
+def _case_kmer_overflow(rng):
+    """k-mer codes that do not fit int64 (len(base) ** k >= 2**63): exact value or a refusal — oracle only, the
+    unbounded model is not compared"""
+    n, k = rng.choice([(2000, 6), (3000, 6), (24, 14), (1000, 7), (65536, 4), (4, 32), (94, 10)])
+    ops = []
+    for _ in range(3):
+        if rng.random() < 0.5:
+            ops.append(f"k_fuse {n} {k} i64 {_ints(rng.choice([n - 1, rng.randrange(n)]) for _ in range(k))}")
+        else:
+            dt = [d for d in ("u8", "u16", "u32") if n - 1 <= DT_RANGE[d][1]][0]
+            ops.append(f"k_kmers {n} {k} - {dt} {_ints(rng.choice([n - 1, rng.randrange(n)]) for _ in range(k + 2))}")
+    return {"kind": "kmer-overflow", "check_ops": ops}
+
+
+def _case_dup(rng):
+    """alphabets with DUPLICATE symbols (the constructors accept them): decode(encode(x)) must still be x — oracle only
+    (symbol level; which of the equal symbols' codes is used is not asserted)"""
+    letter = rng.random() < 0.6
+    if letter:
+        base = [str(p) for p in _letter_alph(rng, small=True)]
+    else:
+        base = rng.sample(GEN_TOKENS, rng.randint(1, 6))
+    al = list(base) + [rng.choice(base) for _ in range(rng.randint(1, 4))]
+    rng.shuffle(al)
+    if letter and rng.random() < 0.15:
+        al = (al * 60)[:rng.choice([200, 255])]          # many duplicates, still below the uint8 sentinel
+    spec = ("L:" if letter else "G:") + _toks(al)
+    ops = []
+    for _ in range(3):
+        syms = [rng.choice(al) for _ in range(rng.choice([0, 1, 4, 8]))]
+        if rng.random() < 0.2:
+            syms.append("33" if letter and "33" not in al else "sZZ" if not letter else "126")
+        ops.append(f"rt {spec} {_toks(syms)}")
+    ops += [f"s_new {spec} {_toks(rng.choice(al) for _ in range(5))}", "s_str 0", "s_rev 0", "s_str 1", "s_add 0 1", "s_str 2",
+            f"s_set 0 2 {rng.choice(al)}", "s_str 0", "s_copy 0", "s_eq 0 3", "s_get 0 -1", "s_slice 0 1 4", "s_str 4"]
+    return {"kind": "alphabet-duplicates", "check_ops": ops}
+
+
+def _case_alias(rng):
+    """mutation after slicing / reverse(copy=False) / as_type: the real objects share their code array (numpy views).
+    The source must follow its own string; the derived object is either the old or the new content, never anything else."""
+    n = rng.randint(3, 8)
+    txt = [rng.choice("ACGT") for _ in range(n)]
+    lo = rng.randint(0, n - 2)
+    hi = rng.randint(lo + 1, n)
+    k = rng.randint(0, n - 1)
+    sym = rng.choice("ACGT")
+    return {"kind": "sequence-alias", "alias": {"txt": "".join(txt), "lo": lo, "hi": hi, "k": k, "sym": sym,
+                                                "how": rng.choice(["slice", "revv", "slice"])}}
+
+
 def _case_eq(rng):
     """`==` between sequences whose code arrays coincide although alphabet / class / symbols differ"""
     ops = []
@@ -1571,7 +1640,7 @@ def _case_codon(rng, table_id=None):
 def cases(rng, tier):
     scale = 1 if tier == "quick" else 12
     plan = [(_case_alphabet, 110), (_case_bytes, 16), (_case_newalph, 12), (_case_mapper, 50), (_case_mapper_big, 12),
-            (_case_sequence, 130), (_case_add, 30), (_case_eq, 40), (_case_pickle, 40), (_case_setcode_full, 30), (_case_spellings, 50), (_case_seq_api, 50), (_case_index_extra, 15), (_case_kmer_api, 30), (_case_codon_api, 30), (_case_kmer, 110), (_case_kmer_illegal, 20), (_case_codon, 110), (_case_derive, 50)]
+            (_case_sequence, 130), (_case_add, 30), (_case_eq, 40), (_case_pickle, 40), (_case_setcode_full, 30), (_case_spellings, 50), (_case_seq_api, 50), (_case_index_extra, 15), (_case_kmer_api, 30), (_case_codon_api, 30), (_case_translate_invalid, 30), (_case_kmer_overflow, 8), (_case_dup, 25), (_case_alias, 15), (_case_kmer, 110), (_case_kmer_illegal, 20), (_case_codon, 110), (_case_derive, 50)]
     for fn, cnt in plan:
         for _ in range(cnt * scale):
             yield fn(rng)
@@ -2056,6 +2125,10 @@ def reference(ops):
                         r["syms"] = None
                         r["maybe_unchanged"] = True
             elif poisoned:
+                if op in ("s_set", "s_setslice", "s_setarr"):
+                    # the invalid code may have been overwritten: nothing is known about the content any more
+                    r["maybe_unchanged"] = True
+                    r.pop("codes", None)
                 if op == "s_str":
                     e = None if r.get("maybe_unchanged") else ("err", {"AlphabetError"})
                 elif op in ("s_slice", "s_rev", "s_copy", "s_compl", "s_pickle", "s_deepcopy"):
@@ -2394,6 +2467,10 @@ def reference(ops):
 def _classify(op, line, got):
     """Finding key: the specific failing input class."""
     w = op.split()
+    if w[0] in ("k_fuse", "k_kmers") and int(w[1]) ** max(int(w[2]), 0) >= 2 ** 63 and got.startswith("ok"):
+        return "C03/KmerAlphabet/alphabet-size-exceeds-int64"
+    if w[0] == "rt" and w[1].startswith("L:") and len(_ptoks(w[1][2:])) > 255 and got.startswith("ok"):
+        return "C03/LetterAlphabet/more-than-255-letters"
     if w[0] == "k_fuse" and got.startswith("ok"):
         n, k, codes = int(w[1]), int(w[2]), _pints(w[4])
         if len(codes) == k and any(c == n for c in codes) and not any(c > n or c < 0 for c in codes):
@@ -2411,10 +2488,6 @@ def _classify(op, line, got):
         return "C03/Sequence.code/code-outside-dtype-wraps"
     if w[0] == "s_setarr" and got.startswith("ok") and not got.startswith("ok !"):
         return "C03/Sequence.__setitem__/code-outside-dtype-wraps"
-    if w[0] in ("k_fuse", "k_kmers") and int(w[1]) ** max(int(w[2]), 0) >= 2 ** 63 and got.startswith("ok"):
-        return "C03/KmerAlphabet/alphabet-size-exceeds-int64"
-    if w[0] == "rt" and w[1].startswith("L:") and len(_ptoks(w[1][2:])) > 255 and got.startswith("ok"):
-        return "C03/LetterAlphabet/more-than-255-letters"
     if got.startswith("CRASH"):
         return f"C03/{w[0]}/crash"
     if got.endswith("+MUTATED"):
@@ -2424,7 +2497,30 @@ def _classify(op, line, got):
                              else "wrong-error" if got.startswith("ERR") and wants_error else "wrong-result")
 
 
+def _oracle_alias(case):
+    import biotite.sequence as seq
+    a = case["alias"]
+    s = seq.NucleotideSequence(a["txt"])
+    old = a["txt"]
+    if a["how"] == "slice":
+        d = s[a["lo"]:a["hi"]]
+        view = lambda t: t[a["lo"]:a["hi"]]      # noqa: E731
+    else:
+        d = s.reverse(copy=False)
+        view = lambda t: t[::-1]                 # noqa: E731
+    s[a["k"]] = a["sym"]
+    new = old[:a["k"]] + a["sym"] + old[a["k"] + 1:]
+    v = []
+    if str(s) != new:
+        v.append(("C03/alias/source-wrong", f"{a}: source is {str(s)!r}, expected {new!r}"))
+    if str(d) not in (view(old), view(new)):
+        v.append(("C03/alias/derived-neither-old-nor-new", f"{a}: derived object is {str(d)!r}, expected {view(old)!r} or {view(new)!r}"))
+    return v
+
+
 def oracle(case):
+    if case.get("kind") == "sequence-alias" and "alias" in case:
+        return _oracle_alias(case)
     ops = case.get("ops") or case.get("check_ops") or []
     if not ops:
         return []
@@ -2457,6 +2553,8 @@ def nontrivial(case, impl_out):
 
 
 def signature(case):
+    if "alias" in case:
+        return "alias|" + str(sorted(case["alias"].items()))
     return "|".join(case.get("ops") or case.get("check_ops") or [])
 
 
